@@ -19,8 +19,9 @@
    specification, how C++ groups lines into compound statements and under which conditions each
    line then runs; the theorems say that the block tree of the firmware is Python's block tree. *)
 From Coq Require Import ZArith List Bool.
-From RV Require Import Base.Wire Base.Text Lang.Lex Lang.PyLayout Lang.Layout Lang.DispatchSpec Lang.EmitBlocks Gen.Dispatch.
+From RV Require Import Base.Wire Base.Text Lang.Rx Lang.Lex Lang.PyLayout Lang.Layout Lang.DispatchSpec Lang.EmitBlocks Lang.ScriptFw Lang.LineShapes Lang.LineDispatch Gen.Dispatch Gen.LineRx.
 From RV Require Import Proofs.LexP Proofs.RelayoutP Proofs.RoundTripP Proofs.C07P Proofs.EmitBlocksP Proofs.FirmwareBlocksP.
+From RV Require Import Proofs.TopRoundTripP Proofs.ScriptFwP Proofs.ScriptTopP Proofs.RxP Proofs.LineShapesP Proofs.LineDispatchP.
 Import ListNotations.
 Open Scope Z_scope.
 
@@ -262,3 +263,151 @@ Example C07_dropped_elif_moves_else :
   fw_paths ex_dropped <> Some (py_paths ex_tr ex_cx ex_cx ex_cx ex_cx [] [] ex_chain).
 Proof. exact dropped_elif_moves_else. Qed.
 Print Assumptions C07_dropped_elif_moves_else.
+
+(* ================================================================ the level of parse(): whole scripts *)
+
+(* the model of parse()'s top-level dispatch (target(...) directives and the import filter first; at
+   column 0 `while True:` -> main loop, while / for -> one block, def -> a function, if / try -> the whole
+   chain collected by _collect_if/try_structure, anything else -> one statement) applied to ANY layout
+   of a script inside the guard gives back the skeleton: every statement stays in its block, its
+   function and its phase (setup / loop) *)
+Theorem C07_top_roundtrip_partial : forall u items final_junk,
+  top_layout_ok u items final_junk = true ->
+  map erase_item (parse_top (render_top (ind_unit u) items final_junk)) = lerase_tops items.
+Proof. exact parse_render_top. Qed.
+Print Assumptions C07_top_roundtrip_partial.
+
+Theorem C07_top_relayout_invariant_partial : forall u1 u2 items1 items2 fj1 fj2,
+  top_layout_ok u1 items1 fj1 = true -> top_layout_ok u2 items2 fj2 = true -> lerase_tops items1 = lerase_tops items2 ->
+  map erase_item (parse_top (render_top (ind_unit u1) items1 fj1)) = map erase_item (parse_top (render_top (ind_unit u2) items2 fj2)).
+Proof. exact relayout_invariant_top. Qed.
+Print Assumptions C07_top_relayout_invariant_partial.
+
+(* the sketch a script skeleton becomes (one section per def, setup() with the column-0 statements, loop()
+   with the main-loop bodies), read the way C++ reads it, is what Python's block tree prescribes *)
+Theorem C07_script_sections_structure_partial : forall tr cx fv fn ex fh hs hl phs phl its,
+  script_ok tr fh hs hl phs phl its = true ->
+  c_read (emit_sections (script_sections tr cx fv fn ex fh hs hl phs phl its)) = Some (script_cs tr cx fv fn ex fh hs hl its).
+Proof. exact script_sections_structure. Qed.
+Print Assumptions C07_script_sections_structure_partial.
+
+(* ONE THEOREM FROM SOURCE TEXT TO EMITTED C++ BLOCKS: any layout of the script inside the guard *)
+Theorem C07_script_to_firmware_partial : forall tr cx fv fn ex fh hs hl phs phl u items fj,
+  top_layout_ok u items fj = true ->
+  script_ok tr fh hs hl phs phl (lerase_tops items) = true ->
+  c_read (emit_sections (script_sections tr cx fv fn ex fh hs hl phs phl
+            (map erase_item (parse_top (render_top (ind_unit u) items fj)))))
+  = Some (script_cs tr cx fv fn ex fh hs hl (lerase_tops items)).
+Proof. exact script_to_firmware. Qed.
+Print Assumptions C07_script_to_firmware_partial.
+
+(* any two layouts inside the guard give the same firmware lines, hence the same block structure - Python's *)
+Theorem C07_two_layouts_same_firmware_partial : forall tr cx fv fn ex fh hs hl phs phl u1 u2 items1 items2 fj1 fj2,
+  top_layout_ok u1 items1 fj1 = true -> top_layout_ok u2 items2 fj2 = true -> lerase_tops items1 = lerase_tops items2 ->
+  emit_sections (script_sections tr cx fv fn ex fh hs hl phs phl (map erase_item (parse_top (render_top (ind_unit u1) items1 fj1))))
+  = emit_sections (script_sections tr cx fv fn ex fh hs hl phs phl (map erase_item (parse_top (render_top (ind_unit u2) items2 fj2))))
+  /\ (script_ok tr fh hs hl phs phl (lerase_tops items1) = true ->
+      c_read (emit_sections (script_sections tr cx fv fn ex fh hs hl phs phl (map erase_item (parse_top (render_top (ind_unit u2) items2 fj2)))))
+      = Some (script_cs tr cx fv fn ex fh hs hl (lerase_tops items1))).
+Proof. exact two_layouts_same_firmware. Qed.
+Print Assumptions C07_two_layouts_same_firmware_partial.
+
+(* non-vacuity: a tab layout with comments everywhere (before the target(...) directive, on the def, before
+   elif, on the main-loop header) and a plain 2-space layout of the same script are both inside the guard *)
+Example C07_top_layouts_nonvacuous :
+  top_layout_ok [9] ex_top_a [[]; t_c] = true /\ top_layout_ok [32;32] ex_top_b [] = true
+  /\ lerase_tops ex_top_a = lerase_tops ex_top_b
+  /\ length (render_top (ind_unit [9]) ex_top_a [[]; t_c]) = 27%nat
+  /\ length (lerase_tops ex_top_a) = 4%nat.
+Proof. exact top_layouts_nonvacuous. Qed.
+Print Assumptions C07_top_layouts_nonvacuous.
+
+(* ================================================================ the statement recognisers (RE_* patterns) *)
+
+(* the matcher that runs the regenerated patterns decides the usual language of a regular expression *)
+Theorem C07_rx_match_decides : forall r s, rx_match r s = true <-> lang r s.
+Proof. exact rx_match_ok. Qed.
+Print Assumptions C07_rx_match_decides.
+
+(* 63 of the 74 RE_* patterns of the CURRENT parser.py are instances of five shapes (method call without /
+   with arguments, device declaration, import, sleep) or the two target(...) patterns of Lang/Lex.v *)
+Theorem C07_patterns_have_their_shapes : forall p, In p shape_table -> fst p = snd p.
+Proof. exact shapes_agree. Qed.
+Print Assumptions C07_patterns_have_their_shapes.
+
+(* the dispatch loop of the CURRENT _parse_simple_lines tries the recognisers in the order of DESIGN.md B.5,
+   with exactly these device-set guards; every id names the pattern it carries *)
+Theorem C07_dispatch_chain_pinned : map strip_id chain = expected_chain /\ n_guard_sets = 5%nat.
+Proof. exact chain_order_pinned. Qed.
+Print Assumptions C07_dispatch_chain_pinned.
+
+(* optional spacing, exact guard.  NAME g0 . g1 METH g2 ( g3 ): recognised for every white space before
+   the dot and inside the parentheses - when g1 and g2 are empty *)
+Theorem C07_call0_spacing_partial : forall meth name g0 g3,
+  is_ident name = true -> gap g0 = true -> gap g3 = true ->
+  rx_match (sh_method0 meth) (line_call0 name meth g0 [] [] g3) = true.
+Proof. exact method0_accepts. Qed.
+Print Assumptions C07_call0_spacing_partial.
+
+Theorem C07_call_spacing_partial : forall meth name args g0 g3 g4,
+  is_ident name = true -> one_line args = true -> gap g0 = true -> gap g3 = true -> gap g4 = true ->
+  rx_match (sh_method meth) (line_call name meth args g0 [] [] g3 g4) = true.
+Proof. exact method_accepts. Qed.
+Print Assumptions C07_call_spacing_partial.
+
+(* device declarations and sleep(...): EVERY gap between tokens is optional (no spacing finding there) *)
+Theorem C07_decl_spacing : forall cls name args g0 g1 g2 g3 g4,
+  is_ident name = true -> one_line args = true ->
+  gap g0 = true -> gap g1 = true -> gap g2 = true -> gap g3 = true -> gap g4 = true ->
+  rx_match (sh_decl cls) (line_decl name cls args g0 g1 g2 g3 g4) = true.
+Proof. exact decl_accepts. Qed.
+Print Assumptions C07_decl_spacing.
+
+Theorem C07_sleep_spacing : forall args g0 g1 g2,
+  one_line args = true -> args <> [] -> gap g0 = true -> gap g1 = true -> gap g2 = true ->
+  rx_match sh_sleep (line_sleep args g0 g1 g2) = true.
+Proof. exact sleep_accepts. Qed.
+Print Assumptions C07_sleep_spacing.
+
+(* outside the guard the property fails (findings F-C07-call-paren-space, F-C07-keyword-paren): Python reads
+   `led.on ()`, `led. on()`, `mon.write ("x")`, `if(x>1):` as `led.on()`, `mon.write("x")`, `if (x>1):`;
+   the recognisers do not, and the line falls through the whole chain to the unknown-statement tail *)
+Theorem C07_call_paren_space_refuted :
+  exists name meth g0 g1 g2 g3,
+    is_ident name = true /\ gap g0 = true /\ gap g1 = true /\ gap g2 = true /\ gap g3 = true /\
+    rx_match (sh_method0 meth) (line_call0 name meth [] [] [] []) = true /\
+    rx_match (sh_method0 meth) (line_call0 name meth g0 g1 g2 g3) = false /\
+    is_rx_handler RE_LED_ON (hd_of (dispatch chain false [] (line_call0 name meth [] [] [] []))) = true /\
+    is_tail (hd_of (dispatch chain false [] (line_call0 name meth g0 g1 g2 g3))) = true.
+Proof. exact call_paren_space_refuted. Qed.
+Print Assumptions C07_call_paren_space_refuted.
+
+Theorem C07_call_dot_space_refuted :
+  exists name meth g1, is_ident name = true /\ gap g1 = true /\
+    rx_match (sh_method0 meth) (line_call0 name meth [] g1 [] []) = false /\
+    is_tail (hd_of (dispatch chain false [] (line_call0 name meth [] g1 [] []))) = true.
+Proof. exact call_dot_space_refuted. Qed.
+Print Assumptions C07_call_dot_space_refuted.
+
+Theorem C07_call_args_paren_space_refuted :
+  exists name meth args g2, is_ident name = true /\ one_line args = true /\ gap g2 = true /\
+    is_rx_handler RE_SERIAL_WRITE (hd_of (dispatch chain false [] (line_call name meth args [] [] [] [] []))) = true /\
+    rx_match (sh_method meth) (line_call name meth args [] [] g2 [] []) = false /\
+    is_tail (hd_of (dispatch chain false [] (line_call name meth args [] [] g2 [] []))) = true.
+Proof. exact call_args_paren_space_refuted. Qed.
+Print Assumptions C07_call_args_paren_space_refuted.
+
+Theorem C07_keyword_paren_refuted :
+  rx_match RE_IF s_if_blank = true /\ re_if s_if_blank = true /\
+  rx_match RE_IF s_if_paren = false /\ re_if s_if_paren = false /\
+  is_rx_handler RE_IF (hd_of (dispatch chain false [] s_if_blank)) = true /\
+  is_tail (hd_of (dispatch chain false [] s_if_paren)) = true.
+Proof. exact keyword_paren_refuted. Qed.
+Print Assumptions C07_keyword_paren_refuted.
+
+(* the Led recognisers are unguarded: any receiver that is not a declared RGB LED is taken for a Led *)
+Example C07_led_handler_unguarded :
+  is_rx_handler RE_LED_ON (hd_of (dispatch chain false [[]; []; []; []; []] (line_call0 [120;121;122] s_on [] [] [] []))) = true /\
+  is_rx_handler RE_RGB_LED_ON (hd_of (dispatch chain false [[[120;121;122]]; []; []; []; []] (line_call0 [120;121;122] s_on [] [] [] []))) = true.
+Proof. exact led_handler_unguarded. Qed.
+Print Assumptions C07_led_handler_unguarded.
